@@ -5,6 +5,6 @@ PROP = dict(
     level_note="Trusted: harness in-memory storage engine and gate scheduler (each client's storage steps are serialised; internal goroutines of one client are granted in arrival order). In-process goroutine interleavings inside one handle are not controlled.",
     technique="stateful property-based testing (rapid) with a deterministic storage-step scheduler",
     assumptions=["two processes are modelled as two lake.Root handles over one in-memory store", "the first observation of a commit is the reference for later observations (content correctness is C14/C15)"],
-    tests=[dict(name="TestCommitImmutable", quick=(8, 40), thorough=(16, 500)),
+    tests=[dict(name="TestCommitImmutable", quick=(8, 40), thorough=(16, 120)),
            dict(name="TestReaderIsolation", quick=(8, 100), thorough=(16, 1500))],
 )
